@@ -75,6 +75,9 @@ class EccWorld:
         self.by_raw[p._pub.to_raw_bin_fmt().key()] = p._pub
         return p
 
+    def pub_raw(self, ident):
+        return Pub(ident).to_raw_bin_fmt()
+
     def from_raw(self, raw):
         r = Rope.of(raw)
         if core.cur().branch(r.length_term() != 64):
